@@ -48,7 +48,8 @@ PLAN = {
         "mc": MC_LINES,
         "families": [{"gen": ("tlc", {"name": "head-rows", "tla": "MC_Head.tla", "cfg": "MC_Head.cfg", "cfg_thorough": "MC_Head_thorough.cfg", "workers": 8}),
                       "runner": "head", "trace": "Trace_Head"},
-                     fam("h_large", runner="head", trace="Trace_Head")],
+                     fam("h_large", runner="head", trace="Trace_Head"),
+                     fam("x_status")],
         "rule": "heads over a symbol alphabet enumerated by TLC (names x value strings incl. SP, HTAB, bare LF, obs-text; duplicates; Transfer-Encoding), each under 5 segmentations; structured large heads (all status codes, header counts at max_headers, values to 16 KiB, blocks > 64 KiB) seeded-random",
         "assumptions": ASSUME_X + ["values are compared modulo SP/HTAB at their ends (laxer reading of 'surrounding spaces')"],
         "replay_runner": "head", "replay_trace": "Trace_Head",
